@@ -27,7 +27,7 @@ func phasesFor(prop string) []phaseDef {
 			{"memory", "plain", 60000, 600000, func(r *Rng, i int) []*Scenario {
 				return []*Scenario{{Property: "C01", Phase: "memory", Doc: genDoc(r, docMax(r))}}
 			}},
-			{"large", "plain", 400, 16000, func(r *Rng, i int) []*Scenario { return genStreamLarge(r, "C01", "large", 0.2, 0.1) }},
+			{"large", "plain", 800, 16000, func(r *Rng, i int) []*Scenario { return genStreamLarge(r, "C01", "large", 0.2, 0.1) }},
 			{"trunc-enum", "plain", 400, 12000, func(r *Rng, i int) []*Scenario { return genEnumK(r, "C01", "trunc-enum", "early-eof") }},
 			{"part-enum", "plain", 1000, 20000, func(r *Rng, i int) []*Scenario { return genEnumPartitions(r, "C01", "part-enum") }},
 		}
@@ -37,16 +37,16 @@ func phasesFor(prop string) []phaseDef {
 			{"A-knob", "knob", 100000, 1200000, func(r *Rng, i int) []*Scenario { return genStream(r, "C08", "A-knob", true, 0, 0) }},
 			{"B", "plain", 100000, 1200000, func(r *Rng, i int) []*Scenario { return genStream(r, "C08", "B", false, 0.25, 0.75) }},
 			{"B-knob", "knob", 100000, 1200000, func(r *Rng, i int) []*Scenario { return genStream(r, "C08", "B-knob", true, 0.25, 0.75) }},
-			{"large", "plain", 500, 16000, func(r *Rng, i int) []*Scenario { return genStreamLarge(r, "C08", "large", 0.15, 0.35) }},
+			{"large", "plain", 1000, 16000, func(r *Rng, i int) []*Scenario { return genStreamLarge(r, "C08", "large", 0.15, 0.35) }},
 			{"B-enum", "knob", 400, 16000, func(r *Rng, i int) []*Scenario { return genEnumK(r, "C08", "B-enum", "error") }},
 			{"part-enum", "plain", 2500, 40000, func(r *Rng, i int) []*Scenario { return genEnumPartitions(r, "C08", "part-enum") }},
 		}
 	case "C04":
 		return []phaseDef{
-			{"healthy", "steps", 60000, 600000, func(r *Rng, i int) []*Scenario { return genTotality(r, "healthy") }},
-			{"faulty", "steps", 40000, 600000, func(r *Rng, i int) []*Scenario { return genTotality(r, "faulty") }},
+			{"healthy", "steps", 150000, 600000, func(r *Rng, i int) []*Scenario { return genTotality(r, "healthy") }},
+			{"faulty", "steps", 80000, 600000, func(r *Rng, i int) []*Scenario { return genTotality(r, "faulty") }},
 			{"limit", "steps", 20000, 200000, func(r *Rng, i int) []*Scenario { return genTotality(r, "limit") }},
-			{"cut-enum", "steps", 200, 6000, func(r *Rng, i int) []*Scenario { return genTotalityEnum(r) }},
+			{"cut-enum", "steps", 400, 6000, func(r *Rng, i int) []*Scenario { return genTotalityEnum(r) }},
 		}
 	case "C18":
 		return []phaseDef{
